@@ -88,6 +88,11 @@ def apply_model(sym, n, f, vals, mut_idx, st):
     p = short_path(f["path"])
     last = p.split("::")[-1]
     local = sym.fx.by_dp.get(f.get("resolved_dp")) or sym.fx.by_dp.get(f.get("dp"))
+    # calling a closure held in a variable (`let f = |x| ..; f(a)` is `Fn::call(&f, (a,))`, resolved to the closure body): the
+    # argument tuple is untupled here - the closure body binds its parameters one by one
+    if p in ("std::ops::Fn::call", "std::ops::FnMut::call_mut", "std::ops::FnOnce::call_once") and len(vals) == 2 \
+            and vals[0][0] in ("closure", "fnref") and vals[1][0] == "tuple":
+        return sym.apply(vals[0], list(vals[1][1]), st, n)
     if local and sym.fx.bodies[local]["krate"] in sym.krates:
         return None     # local code is inlined / kept opaque by sym, never modelled
 
